@@ -40,6 +40,8 @@ type vReq struct {
 
 type vTransport struct {
 	name string
+	owner *Backend      // the backend object this transport belongs to
+	lb    *LoadBalancer
 }
 
 type ctxKey struct{}
@@ -57,7 +59,21 @@ func (f *failingBody) Close() error { return nil }
 
 func (t *vTransport) RoundTrip(r *http.Request) (*http.Response, error) {
 	vr := r.Context().Value(ctxKey{}).(*vReq)
-	vr.backend <- t.name
+	name := t.name
+	if t.owner != nil && t.lb != nil {
+		// the request reached a backend object that is no longer in the pool (removed, or replaced by
+		// a new backend of the same name): say so
+		current := false
+		for _, b := range t.lb.strategy.GetBackends() {
+			if b == t.owner {
+				current = true
+			}
+		}
+		if !current {
+			name += "~REMOVED-OBJECT"
+		}
+	}
+	vr.backend <- name
 	o := <-vr.outcome
 	switch o {
 	case "unreach":
@@ -99,7 +115,7 @@ type vLB struct {
 func (v *vLB) instrument() {
 	for _, b := range v.lb.strategy.GetBackends() {
 		if _, ok := b.ReverseProxy.Transport.(*vTransport); !ok {
-			b.ReverseProxy.Transport = &vTransport{name: b.Name}
+			b.ReverseProxy.Transport = &vTransport{name: b.Name, owner: b, lb: v.lb}
 			b.ReverseProxy.ErrorLog = nil
 		}
 	}
@@ -226,7 +242,7 @@ func (v *vLB) op(w []string) string {
 	switch w[0] {
 	case "new":
 		// new <strategy> <passive> <threshold> <eject_s> <rl> <max> <refill_s> <cb> <ft> <st> <mx> <iv_s> <to_s>
-		if len(w) != 14 {
+		if len(w) != 14 && !(len(w) == 15 && w[14] == "act") {
 			return "bad-op"
 		}
 		if v.probeDone != nil {
@@ -246,16 +262,66 @@ func (v *vLB) op(w []string) string {
 		cfg.HealthChecks.Passive = config.PassiveHealthCheckConfig{Enabled: w[2] == "1", UnhealthyThreshold: atoi(w[3]), UnhealthyTimeout: atoi(w[4])}
 		cfg.HealthChecks.Active.Path = "/health"
 		cfg.HealthChecks.Active.Timeout = 2
+		if len(w) == 15 {
+			// active checks on, with an interval no episode reaches: probes happen only through the probe ops
+			cfg.HealthChecks.Active.Enabled = true
+			cfg.HealthChecks.Active.Interval = 86400
+		}
 		cfg.RateLimit = config.RateLimitConfig{Enabled: w[5] == "1", MaxTokens: atoi(w[6]), RefillRate: atoi(w[7])}
 		cfg.CircuitBreaker = config.CircuitBreakerConfig{Enabled: w[8] == "1", FailureThreshold: atoi(w[9]), SuccessThreshold: atoi(w[10]),
 			MaxRequests: atoi(w[11]), IntervalSeconds: atoi(w[12]), TimeoutSeconds: atoi(w[13])}
 		cfg.Backends = nil
+		atomic.StoreInt32(&v.probeCode, 200)
 		lb, err := NewLoadBalancer(cfg)
 		if err != nil {
 			return "err"
 		}
+		if len(w) == 15 {
+			// the loop's initial round (over an empty pool) runs in its own goroutine: let it pass
+			// before the episode adds backends, so that no real probe interleaves with the ops
+			time.Sleep(30 * time.Millisecond)
+		}
 		v.lb = lb
 		return "ok"
+	}
+	if w[0] == "wireall" {
+		// wireall <ai> <at> <pt> <pto> <rlm> <rlr> <wsi> <wsa> <wst> <tbr> <tbi> : every number the
+		// configuration hands to a feature, through validation and NewLoadBalancer, read back from
+		// the objects the balancer really runs with (durations in ns)
+		if len(w) != 12 {
+			return "bad-op"
+		}
+		n := func(i int) int { return atoi(w[i]) }
+		cfg := &config.Config{}
+		cfg.Server.Port = 8080
+		cfg.LoadBalancer.Strategy = "round_robin"
+		cfg.Backends = []config.BackendConfig{{Name: "s1", Address: "http://127.0.0.1:9", Weight: 1}}
+		cfg.HealthChecks.Active = config.ActiveHealthCheckConfig{Enabled: true, Interval: n(1), Timeout: n(2), Path: "/health"}
+		cfg.HealthChecks.Passive = config.PassiveHealthCheckConfig{Enabled: true, UnhealthyThreshold: n(3), UnhealthyTimeout: n(4)}
+		cfg.RateLimit = config.RateLimitConfig{Enabled: true, MaxTokens: n(5), RefillRate: n(6)}
+		cfg.LoadBalancer.WebSocketPool = config.WebSocketPoolConfig{Enabled: true, MaxIdle: n(7), MaxActive: n(8), IdleTimeoutSeconds: n(9)}
+		cfg.Server.Timeouts.BackendRead = n(10)
+		cfg.Server.Timeouts.BackendIdle = n(11)
+		if err := cfg.Validate(); err != nil {
+			return "rejected"
+		}
+		lb, err := NewLoadBalancer(cfg)
+		if err != nil {
+			return "err"
+		}
+		defer lb.Stop()
+		hc := lb.healthChecks
+		rl := reflect.ValueOf(lb.rateLimiter).Elem()
+		var tbr, tbi int64 = -1, -1
+		for _, b := range lb.strategy.GetBackends() {
+			if tr, ok := b.ReverseProxy.Transport.(*http.Transport); ok {
+				tbr, tbi = int64(tr.ResponseHeaderTimeout), int64(tr.IdleConnTimeout)
+			}
+		}
+		return fmt.Sprintf("eff ai=%d at=%d pt=%d pto=%d rlm=%d rlr=%d wsi=%d wsa=%d wst=%d tbr=%d tbi=%d",
+			int64(hc.activeInterval), int64(hc.activeTimeout), hc.passiveThreshold, int64(hc.passiveTimeout),
+			rl.FieldByName("maxTokens").Int(), rl.FieldByName("refillRate").Int(),
+			lb.wsPool.maxIdle, lb.wsPool.maxActive, int64(lb.wsPool.idleTimeout), tbr, tbi)
 	}
 	if w[0] == "wire" {
 		// wire <max> <interval_s> <timeout_s> <fail> <succ> : what the balancer makes of a breaker
@@ -601,8 +667,9 @@ func (v *vLB) op(w []string) string {
 		v.holdProbe.Store(false)
 		return "ok"
 	case "begin":
-		// begin <tid> <now> <xff> <xri> <remote>
-		if len(w) != 6 || v.fl[w[1]] != nil {
+		// begin <tid> <now> <xff> <xri> <remote> [upg] : with `upg` the request offers a protocol
+		// upgrade (the scripted backend declines it): every gate treats it like any other request
+		if (len(w) != 6 && !(len(w) == 7 && w[6] == "upg")) || v.fl[w[1]] != nil {
 			return "bad-op"
 		}
 		verifclock.Set(atoi64(w[2]))
@@ -615,6 +682,10 @@ func (v *vLB) op(w []string) string {
 			req.Header.Set("X-Real-IP", x)
 		}
 		req.RemoteAddr = unesc(w[5])
+		if len(w) == 7 {
+			req.Header.Set("Connection", "Upgrade")
+			req.Header.Set("Upgrade", "h2c")
+		}
 		ctx := context.WithValue(req.Context(), ctxKey{}, f)
 		ctx = context.WithValue(ctx, http.ServerContextKey, &http.Server{}) // as under a real server: ReverseProxy aborts by panic
 		req = req.WithContext(ctx)
